@@ -179,6 +179,29 @@ fn run(ctx: &mut Ctx) {
         }
         ctx.count_n("requested_samples values swept", 4096);
     });
+    // ---- every keep_last 34..=4095 with exactly enough samples, one too few and one more, suppression off (keep_bit set)
+    // and on: the 12-bit field is compared at full width and against the right bound everywhere
+    ctx.cases("keep-last-sweep", 64, |ctx, part, rng| {
+        for kl in (34u16..=4095).filter(|k| *k as u64 % 64 == part) {
+            let min_n = (2 * kl as usize).saturating_sub(3).max(64); // n > (kl-1)*2-2
+            for n in [min_n - 1, min_n, min_n + 1] {
+                if n < 64 {
+                    continue;
+                }
+                for sup in [false, true] {
+                    let mut a = Adc::simple(rng.pick(&A16_MACS).1, rng.below(32) as u8, content(rng, 3, n));
+                    a.keep_bit = true;
+                    a.keep_last = kl;
+                    a.suppression = sup;
+                    if sup {
+                        a.requested_samples = (n as u16).saturating_add(2 + rng.below(3) as u16);
+                    }
+                    check_light(ctx, &a.encode(), "keep_last sweep");
+                    ctx.count("keep_last values x sample counts swept");
+                }
+            }
+        }
+    });
     // ---- one header / footer field at a constant from the library's sources, jointly with one more bit / byte changed
     let dict = super::source_dictionary("detector/src");
     ctx.cases("dictionary-pairs", 40 * 2, |ctx, k, rng| {
